@@ -1192,11 +1192,13 @@ impl TDigestView<'_> {
                 }
                 let w1 = weight - weight_so_far - left_weight;
                 let w2 = weight_so_far + dw - weight - right_weight;
+                // w1 is the distance from centroid i, w2 the distance to centroid i+1:
+                // the closer centroid gets the larger weight
                 return Some(weighted_average(
                     self.centroids[i].mean,
-                    w1,
-                    self.centroids[i + 1].mean,
                     w2,
+                    self.centroids[i + 1].mean,
+                    w1,
                 ));
             }
             weight_so_far += dw;
